@@ -195,8 +195,10 @@ def encode_value(kind, v, b):
 
 class DexBuilder:
     def __init__(self, version=b"035", sort_pools=True, map_order=None, extra_strings=(), extra_types=(), strings_last=False,
-                 tail=b"", string_data_order=None):
+                 tail=b"", string_data_order=None, extra_fields=(), extra_methods=()):
         self.classes = []
+        self.extra_fields = list(extra_fields)      # (class, name, type) referenced by nothing: they only take up field ids
+        self.extra_methods = list(extra_methods)    # (class, name, return type, parameter types)
         self.string_data_order = string_data_order    # None (order of the ids) | "reverse" | function n -> permutation
         self.strings_last = strings_last    # string data after the map list, at the very end of the file
         self.tail = tail                    # bytes appended after everything else (still inside file_size)
@@ -219,7 +221,8 @@ class DexBuilder:
         return self._tidx[t]
 
     def _collect(self):
-        strings, types, protos, fields, methods = set(self.extra_strings), set(self.extra_types), set(), set(), set()
+        strings, types, protos = set(self.extra_strings), set(self.extra_types), set()
+        fields, methods = set(self.extra_fields), set((c, n, r, tuple(ps)) for c, n, r, ps in self.extra_methods)
 
         def use_proto(ret, params):
             protos.add((ret, tuple(params)))
